@@ -618,6 +618,18 @@ impl<'env> Executor<'env> {
                 Instruction::PopLoopFrame => {
                     let mut l = state.ctx.pop_frame().current_loop.unwrap();
                     if let Some((target, end_capture)) = l.current_recursion_jump.take() {
+                        // a loop with an else block pushes its did-not-iterate
+                        // flag right before this instruction for the jump that
+                        // follows it.  When returning into the recursion call
+                        // site that jump never runs, so the flag goes here.
+                        if pc > 0
+                            && matches!(
+                                state.instructions.get(pc - 1),
+                                Some(Instruction::PushDidNotIterate)
+                            )
+                        {
+                            stack.pop();
+                        }
                         pc = target;
                         if end_capture {
                             stack.push(out.end_capture(state.auto_escape));
